@@ -118,6 +118,21 @@ class Facts:
                         res.add(("ne", v, ("ci", c, 0)))
             elif len(hit) == 1:
                 res.add(("eq", v, ("ci", hit[0], 0)))
+            # switch on a phi of constants (clang's cleanup-destination pattern): taking the edge for value c
+            # means the phi came through an incoming edge carrying c; facts common to those edges hold
+            d = self.fn.defn(v)
+            if self._phase >= 2 and d is not None and not d.is_param and d.op == "phi" and d.block.id == b and \
+                    all(is_const(x) for x, _ in d.incoming):
+                poss = set(hit) if s != default or hit else {const_val(x) for x, _ in d.incoming} - {c for c, bb in cases}
+                if s == default and hit:
+                    poss |= {const_val(x) for x, _ in d.incoming} - {c for c, bb in cases}
+                acc = None
+                for x, pb in d.incoming:
+                    if const_val(x) in poss:
+                        fs = set(self._inn1.get(pb, frozenset())) | set(self.edge_facts(pb, b))
+                        acc = fs if acc is None else (acc & fs)
+                if acc:
+                    res |= acc
             return frozenset(res)
         return frozenset()
 
@@ -205,7 +220,7 @@ class Facts:
         return frozenset(base)
 
     # ---- sources ------------------------------------------------------------------
-    def sources(self, o, through_casts=True):
+    def sources(self, o, through_casts=True, stop=()):
         """set of (operand, [edges]) leaves that may flow into o through phi/select/casts.
         Returns list of (leaf_operand, facts_on_the_way:frozenset)"""
         out = []
@@ -214,6 +229,9 @@ class Facts:
         def rec(o, facts):
             d = self.fn.defn(o)
             if d is None or d.is_param:
+                out.append((o, frozenset(facts)))
+                return
+            if d.op == "phi" and d.id in stop:
                 out.append((o, frozenset(facts)))
                 return
             if d.op == "phi":
